@@ -588,6 +588,33 @@ def comparator_findings(F, f):
             seen = {}
             for key, res, arm in rows:
                 seen.setdefault(key, (res, arm))
+            # keyed arm (V(k1, ..), V(k2, ..)) => k1.cmp(k2): ascending by the FIRST payload field - the order the binary search
+            # over the same cells assumes (it compares `.0` of the cell with the wanted key and walks up on Less)
+            for key, res, arm in rows:
+                if key[0] == key[1] and key[0] != "_" and res is None:
+                    pat = arm["pat"]
+                    while pat.get("k") in ("Ref", "Deref"):
+                        pat = pat["pat"]
+                    if pat.get("k") == "Tuple" and len(pat["pats"]) == 2:
+                        def first_binding(q):
+                            while q.get("k") in ("Ref", "Deref"):
+                                q = q["pat"]
+                            if q.get("k") == "TupleStruct" and q["pats"]:
+                                b0 = q["pats"][0]
+                                while b0.get("k") in ("Ref", "Deref"):
+                                    b0 = b0["pat"]
+                                rest = [b.get("lid") for x in q["pats"][1:] for b in walk(x) if b.get("k") == "Binding"]
+                                return (b0["lid"] if b0.get("k") == "Binding" else None), rest
+                            return None, []
+                        l1, rest1 = first_binding(pat["pats"][0])
+                        l2, rest2 = first_binding(pat["pats"][1])
+                        b = peel(arm["body"])
+                        if b.get("k") == "MethodCall" and b.get("m") in ("cmp", "partial_cmp") and b["args"]:
+                            rl, al = hirq.local_of(b["recv"]), hirq.local_of(b["args"][0])
+                            if (rl, al) == (l2, l1):
+                                out.append(("descending-key:%s" % key[0], loc(arm), "the comparator orders two %s cells by their key in DESCENDING order (k2.cmp(k1)); the lookup is a binary search that assumes ascending keys" % key[0]))
+                            elif rl in rest1 + rest2 or al in rest1 + rest2:
+                                out.append(("wrong-sort-key:%s" % key[0], loc(arm), "the comparator orders two %s cells by a payload field other than the first (the key the binary search compares)" % key[0]))
             rev = {"Less": "Greater", "Greater": "Less", "Equal": "Equal"}
             for key, (res, arm) in seen.items():
                 if res is None or key[0] == key[1]:
@@ -731,6 +758,15 @@ def hash_impl_findings(F, f):
                             "arm %s ignores its payload (`_`), so all values of the variant share one hash" % arm["pat"].get("txt")))
             if arm.get("guard") is not None and _hash_feeds(arm["body"]):
                 pass
+    # an enum's variants must stay apart: per-variant feeds (a match on self) or the discriminant.  A rendering of the whole
+    # value (`self.to_string()`, `format!("{}", self)`) merges variants that print alike - Integer(7) and Float(7.0).
+    st = (f.get("impl_self") or "").split("<")[0]
+    adt = F.adts.get(st)
+    if adt and adt["kind"] == "enum" and len(adt["variants"]) >= 2 and arms == 0 and feeds:
+        has_disc = any((callee(n) or "").endswith("mem::discriminant") for n in walk(f["hir"]) if n.get("k") == "Call")
+        if not has_disc:
+            fnd.append(("variants-not-separated", loc(feeds[0][1]),
+                        "the hash of the enum %s is computed from one rendering of the whole value, without a per-variant feed or the discriminant: values of different variants that render alike (Integer(7) / Float(7.0)) share a hash, and the hash-keyed intern table hands the second the first one's address" % last(st)))
     return fnd, arms, len(feeds)
 
 
